@@ -34,9 +34,12 @@ class Obligation(object):
         return self.shards
 
     def budget_s(self, tier):
+        """Wall-clock cap per shard.  A cap, not a target: a shard ends when its path tree is exhausted.
+        The floor keeps a loaded machine (several checks at once) from turning into 'inconclusive'."""
+        floor = {"quick": 600, "thorough": 2400}.get(tier, 600)
         if isinstance(self.budget, dict):
-            return self.budget.get(tier, self.budget.get("quick", 120))
-        return self.budget
+            return max(floor, self.budget.get(tier, self.budget.get("quick", 120)))
+        return max(floor, self.budget)
 
     def bounds_text(self, tier):
         if isinstance(self.bounds, dict):
